@@ -91,7 +91,7 @@ func genCase(t *rapid.T) Case {
 		return rapid.SampledFrom([]int64{0o644, 0o600, 0o755, 0o777, 0o4755, 0o444}).Draw(t, label)
 	}
 	add := func(e TEntry) { c.Entries = append(c.Entries, e) }
-	tmpl := rapid.IntRange(0, 10).Draw(t, "template")
+	tmpl := rapid.IntRange(0, 11).Draw(t, "template")
 	pm := rapid.SampledFrom([]int{0, 0, 0, 1, 2}).Draw(t, "prefixMode")
 	switch tmpl {
 	case 0: // symlink, then write through it
@@ -129,6 +129,12 @@ func genCase(t *rapid.T) Case {
 		add(TEntry{Type: rapid.SampledFrom([]string{"fifo", "char"}).Draw(t, "skipped"), Name: "name/e/pipe", Mode: 0o644})
 		add(TEntry{Type: "sym", Name: "name/e", Link: rapid.SampledFrom([]string{"d1/d2/s2/../../out", "d1/d2/s2/../../wd-backup", "d1/d2/s2/.."}).Draw(t, "t10")})
 		add(TEntry{Type: "reg", Name: "name/e/victim.txt", Mode: mode("m"), Data: "through-replaced-dir"})
+	case 11: // hard link whose target passes through an earlier symlink followed by ..
+		// (lexically inside the tree, physically wherever the symlink leads)
+		add(TEntry{Type: "dir", Name: "name/d1/d2/", Mode: 0o755})
+		add(TEntry{Type: "sym", Name: "name/d1/d2/s2", Link: rapid.SampledFrom([]string{"../..", "..", "../../a"}).Draw(t, "q11")})
+		add(TEntry{Type: "link", Name: "name/d1/d2/h", Link: rapid.SampledFrom([]string{"s2/../../victim.txt", "s2/../victim.txt", "s2/../../out/victim.txt", "s2/../../../victim.txt", "s2/../../wd-backup/x"}).Draw(t, "l11")})
+		add(TEntry{Type: "reg", Name: "name/d1/d2/h", Mode: mode("m"), Data: "through-hard-link"})
 	case 5: // benign tree
 		add(TEntry{Type: "dir", Name: "name/d1/", Mode: 0o755})
 		add(TEntry{Type: "reg", Name: "name/d1/a", Mode: mode("m"), Data: "hello"})
@@ -155,7 +161,7 @@ func genCase(t *rapid.T) Case {
 			add(e)
 		}
 	}
-	if pm != 0 && (tmpl < 6 || tmpl == 10) {
+	if pm != 0 && (tmpl < 6 || tmpl >= 10) {
 		for i := range c.Entries {
 			switch pm {
 			case 1:
